@@ -14,13 +14,16 @@
 \*      mutations are prefixes of one another (PrefixOK).  Sample is written as
 \*      the code should behave (Impl = "refresh"); the other values of Impl are
 \*      negative controls: "lazyFirst" refreshes only when n > 1, "autoEqStale"
-\*      is an "auto" object whose getPij() does not refresh eqFreq_.
+\*      is an "auto" object whose getPij() does not refresh eqFreq_,
+\*      "assignKeepsFlag" is an operator= that copies the caches but not the flag.
+\*      Objects can be copy-constructed and assigned (same kind): configuration,
+\*      caches and flag travel together, so a stale cache stays marked stale.
 \*  (2) the observation predicates used by HmmSampleTrace on what the real
 \*      objects returned (PathOK, PrefixOK on recorded paths).
 EXTENDS Integers, Sequences, FiniteSets, TLC
 
 CONSTANTS Objs, Cfgs, Seeds, Lens,   \* design model bounds
-          Impl                       \* "refresh" | "lazyFirst" | "autoEqStale"
+          Impl                       \* "refresh" | "lazyFirst" | "autoEqStale" | "assignKeepsFlag"
 
 VARIABLES kind,    \* o -> "full" | "auto"             (DOMAIN kind = live objects)
           cfg,     \* o -> current configuration (design: element of Cfgs; trace: epoch counter)
@@ -68,6 +71,16 @@ Mutate(o, c) == /\ o \in DOMAIN kind
                 /\ hist' = [hist EXCEPT ![o] = {}]
                 /\ UNCHANGED <<kind, pijC, eqC, last>>
 
+\* copy construction (o2 fresh) / assignment (o2 live, same kind): o2 becomes what o is, caches and flag included
+CopyTo(o, o2) ==
+  /\ o \in DOMAIN kind /\ o2 # o
+  /\ (o2 \in DOMAIN kind => kind[o2] = kind[o])
+  /\ kind' = Put(kind, o2, kind[o]) /\ cfg' = Put(cfg, o2, cfg[o])
+  /\ pijC' = Put(pijC, o2, pijC[o]) /\ eqC' = Put(eqC, o2, eqC[o])
+  /\ up' = Put(up, o2, IF Impl = "assignKeepsFlag" /\ o2 \in DOMAIN kind THEN up[o2] ELSE up[o])
+  /\ hist' = Put(hist, o2, {})
+  /\ UNCHANGED last
+
 \* what a getPij() does to the caches
 RefreshPij(o, p, e, u) ==
   IF u THEN <<p, e, u>>
@@ -97,6 +110,7 @@ Sample(o, n, sd) ==
 
 Next == \/ \E o \in Objs, k \in {"full", "auto"}, c \in Cfgs : New(o, k, c)
         \/ \E o \in Objs, c \in Cfgs : Mutate(o, c)
+        \/ \E o \in Objs, o2 \in Objs : CopyTo(o, o2)
         \/ \E o \in Objs : GetPij(o) \/ GetEq(o)
         \/ \E o \in Objs, n \in Lens, sd \in Seeds : Sample(o, n, sd)
 Spec == Init /\ [][Next]_hvars
